@@ -2,6 +2,7 @@ package c04
 
 import (
 	"encoding/json"
+	"strings"
 	"testing"
 
 	"pgregory.net/rapid"
@@ -369,6 +370,78 @@ func TestSharedTypeObject(t *testing.T) {
 		run.Eval(chkShared, true, c.Root, c.TypeText, c.U1, c.U2)
 		run.Label("shared:" + c.Scenario)
 		run.Sample(chkShared, c)
+	})
+}
+
+// An empty container example under an "or" rule: it obeys the rule iff some alternative admits an
+// empty array / an empty object - an alternative of that kind (by name, or a rule set whose type
+// says so, or a rule set without type made of rules for that kind only) whose item counts admit 0
+// items. A rule set of rules for literals (enum, bounds, lengths, regex) never admits a container.
+func TestContainerExampleUnderOr(t *testing.T) {
+	run.SkipIfReplaying(t)
+	defer run.Done(t, chkCnv)
+	type alt struct {
+		text          string
+		array, object bool // admits [] / {}
+	}
+	pool := []alt{
+		{`"string"`, false, false}, {`"integer"`, false, false}, {`"null"`, false, false}, {`"boolean"`, false, false},
+		{`{type: "string"}`, false, false}, {`{type: "integer", min: 1}`, false, false}, {`{type: "string", minLength: 2}`, false, false},
+		{`{enum: ["y", 1]}`, false, false}, {`{min: 1}`, false, false}, {`{max: 3}`, false, false}, {`{minLength: 2}`, false, false}, {`{regex: "^a"}`, false, false},
+		{`{type: "array", minItems: 1}`, false, false}, {`{type: "array", minItems: 2, maxItems: 3}`, false, false}, {`{minItems: 1}`, false, false},
+		{`{type: "array"}`, true, false}, {`{type: "array", maxItems: 3}`, true, false}, {`{type: "array", minItems: 0}`, true, false}, {`{minItems: 0}`, true, false}, {`"array"`, true, false},
+		{`{type: "object"}`, false, true}, {`{type: "object", additionalProperties: true}`, false, true}, {`{additionalProperties: "any"}`, false, true}, {`"object"`, false, true},
+		{`"any"`, true, true}, {`{type: "any"}`, true, true},
+	}
+	rapid.Check(t, func(t *rapid.T) {
+		example := rapid.SampledFrom([]string{"[]", "{}", "[ ]", "{ }"}).Draw(t, "example")
+		isArr := example[0] == '['
+		n := rapid.IntRange(2, 3).Draw(t, "n")
+		var texts []string
+		admitted := false
+		seen := map[string]bool{}
+		for len(texts) < n {
+			a := rapid.SampledFrom(pool).Draw(t, "alt")
+			if seen[a.text] {
+				continue
+			}
+			seen[a.text] = true
+			texts = append(texts, a.text)
+			admitted = admitted || (isArr && a.array) || (!isArr && a.object)
+		}
+		rule := "{or: [" + strings.Join(texts, ", ") + "]}"
+		lead := rapid.SampledFrom([]string{"", "", "  ", "{\n  \"p\": "}).Draw(t, "lead")
+		schema := lead + example + " // " + rule
+		if strings.HasPrefix(lead, "{") {
+			schema += "\n}"
+		}
+		pos := len(lead)
+		s, _ := lib.Build(lib.Spec{Schema: schema})
+		cr := lib.Check(s)
+		c := CnvCase{Schema: schema, Rule: "or", Pos: pos}
+		if cr.Panic != "" {
+			run.Fail(t, chkCnv, c, "Check panicked: %s", cr.Panic)
+		}
+		switch {
+		case !admitted:
+			converse(t, c)
+			run.Label("container-example-admitted-by-no-alternative")
+		case cr.OK:
+			ex := example
+			if strings.HasPrefix(lead, "{") {
+				ex = "{\"p\":" + example + "}"
+			}
+			if v := lib.Validate(s, []byte(ex)); !v.OK {
+				run.Fail(t, chkFwd, FwdCase{Schema: schema, Example: ex}, "Check accepts the schema but validating its own example fails: %v", v)
+			}
+			run.Label("container-example-admitted:check-accepts")
+		case cr.Code == 204:
+			run.Fail(t, chkCnv, c, "the example %s is admitted by an alternative of %s, but Check says none is: %v", example, rule, cr)
+		default:
+			run.Label("container-example-admitted:rejected-for-another-reason")
+			run.Note("or over a container example rejected: %s -> %v", schema, cr)
+		}
+		run.Eval(chkCnv, true, schema)
 	})
 }
 
